@@ -89,7 +89,7 @@ def _server():
         env = dict(os.environ)
         env["VERIF_REPO"] = core.REPO
         _SERVER = subprocess.Popen([sys.executable, os.path.join(core.HERE, "fresh_server.py")],
-                                   stdin=subprocess.PIPE, stdout=subprocess.PIPE, env=env)
+                                   stdin=subprocess.PIPE, stdout=subprocess.PIPE, env=env, cwd=core.VERIF)
     return _SERVER
 
 
